@@ -152,6 +152,8 @@ class Interp:
             return len(v.chars) > 0
         if isinstance(v, SSeq):
             return mk_bool(z3.Length(v.t) > 0)
+        if isinstance(v, SView):
+            return mk_bool(ops.zi(v.ln) > 0)
         if isinstance(v, (PList, PBytearray, PBytes, tuple)):
             return len(seq_items(v)) > 0
         if isinstance(v, PDict):
@@ -320,6 +322,12 @@ class Interp:
         if op == '+' and isinstance(cur, (PList, PBytearray)):
             self.models.seq_extend(self, cur, val)
             return cur
+        if op == '+' and isinstance(cur, SView) and cur.kind in ('list', 'bytearray'):
+            r = ops.seq_concat(self, cur, self.models.coerce_iter_for_extend(self, cur, val))
+            if isinstance(r, SView):
+                cur.arr, cur.off, cur.ln = r.arr, r.off, r.ln
+                return cur
+            return r
         if op == '+' and isinstance(cur, SSeq) and cur.kind in ('list', 'bytearray'):
             cur.t = z3.Concat(cur.t, ops.seq_term(self.models.coerce_iter_for_extend(self, cur, val)))
             return cur
@@ -730,8 +738,12 @@ class Interp:
                     raise Budget('range iteration too long')
                 return cur
             return GenIter(nxt)
+        if isinstance(v, SView):
+            return self.get_iter(tuple(ops.view_items(self, v)))
         if isinstance(v, SSeq):
-            raise OutOfSubset('iteration over a sequence of symbolic length needs an invariant')
+            # only when the length is provably small: fork over it, then iterate the elements
+            n = ops.small_value(self, mk_int(z3.Length(v.t)))
+            return self.get_iter(tuple(mk_int(v.t[i]) for i in range(n)))
         if isinstance(v, Obj):
             m = self.find_method(v, '__iter__')
             if m is not None:
@@ -755,6 +767,11 @@ class Interp:
     def iterate_all(self, v):
         if isinstance(v, (tuple, PBytes)) or (isinstance(v, (PList, PBytearray))):
             return list(seq_items(v))
+        if isinstance(v, SView):
+            return ops.view_items(self, v)
+        if isinstance(v, SSeq):
+            n = ops.small_value(self, mk_int(z3.Length(v.t)))
+            return [mk_int(v.t[i]) for i in range(n)]
         it = self.get_iter(v)
         out = []
         while True:
@@ -1172,7 +1189,7 @@ class Interp:
             if i is None:
                 raise PyRaise(ExcVal(self.exc_class('KeyError'), (k,)))
             return o.vals[i]
-        if isinstance(o, (PList, PBytearray, PBytes, tuple, str, PStr, SSeq)):
+        if isinstance(o, (PList, PBytearray, PBytes, tuple, str, PStr, SSeq, SView)):
             return ops.seq_getitem(self, o, k)
         if isinstance(o, Obj):
             m = self.find_method(o, '__getitem__')
